@@ -109,11 +109,6 @@ func (interp *Interpreter) gta(root *node, rpath, importPath, pkgName string) ([
 				sc.sym[dest.ident] = &symbol{kind: varSym, global: true, index: sc.add(typ), typ: typ, rval: val, node: n}
 				if n.anc.kind == constDecl {
 					sc.sym[dest.ident].kind = constSym
-					if childPos(n) == len(n.anc.child)-1 {
-						sc.iota = 0
-					} else {
-						sc.iota++
-					}
 				}
 			}
 			return false
